@@ -1,6 +1,7 @@
 import RedisEmu.Exec
 import RedisEmu.Glob
 import RedisEmu.Proofs.AList
+import RedisEmu.Proofs.State
 import Mathlib.Tactic.SplitIfs
 /-
   C06 — keyspace discipline. Theorems about `RedisEmu.Store` / `RedisEmu.Cmds`
@@ -352,4 +353,323 @@ theorem sort_is_rearrangement (c : Ctx) (db : Db) (xs : List Bytes) (isSet desc 
     | nil => rfl
     | cons a r ih => simp [List.flatMap_cons, ih]
   rw [flat]
+
+/-! ## failed commands are inert: every command, every argument, every state -/
+
+set_option linter.unusedSectionVars false
+
+/-- a command that answers with an error has left the database exactly as it was -/
+structure Inert (db : Db) (r : R) : Prop where
+  inert : r.reply.isError = true → r.db = db
+
+macro "inert" : tactic => `(tactic| (repeat' (first
+  | (exact ⟨fun _ => rfl⟩)
+  | (refine ⟨fun h => ?_⟩; simp [R.ok, Value.isError, vOK, vInt, bulks] at h; done)
+  | split
+  | dsimp only [R.ok])))
+
+section
+variable (c : Ctx) (db : Db) (k k2 v f m : Bytes) (i j : Int) (o : SetOpts) (b b2 : Bool)
+  (ks : List Bytes) (kvs : List (Bytes × Bytes)) (oi oj ok' : Option Int) (n : Nat)
+
+theorem setKey_reply_no_error (a a2 : Bool) : (optV (setKey c db k v o a a2).2.1).isError = false := by
+  unfold setKey
+  repeat' split
+  all_goals simp_all [optV, Value.isError, vOK]
+
+theorem set_inert : Inert db (cmdSet c db k v o b) := by
+  unfold cmdSet
+  repeat' (first | (exact ⟨fun _ => rfl⟩) | (refine ⟨fun h => ?_⟩; simp [R.ok, Value.isError] at h; done) | split | dsimp only [R.ok])
+  refine ⟨fun h => ?_⟩
+  simp only [setKey_reply_no_error] at h
+  cases h
+theorem get_inert : Inert db (cmdGet c db k) := by unfold cmdGet; inert
+theorem getdel_inert : Inert db (cmdGetDel c db k) := by unfold cmdGetDel; inert
+theorem getex_inert (e : Option ExpArg) : Inert db (cmdGetEx c db k e) := by unfold cmdGetEx; inert
+theorem strlen_inert : Inert db (cmdStrlen c db k) := by unfold cmdStrlen; inert
+theorem getrange_inert : Inert db (cmdGetRange c db k i j) := by unfold cmdGetRange; inert
+theorem setrange_inert : Inert db (cmdSetRange c db k i v) := by unfold cmdSetRange; inert
+theorem incrby_inert : Inert db (cmdIncrBy c db k i) := by unfold cmdIncrBy; inert
+theorem mget_inert : Inert db (cmdMGet c db ks) := by unfold cmdMGet; inert
+theorem mset_inert : Inert db (cmdMSet c db kvs b) := by unfold cmdMSet; inert
+theorem incrbyfloat_inert : Inert db (cmdIncrByFloat c db k v) := by unfold cmdIncrByFloat; inert
+theorem push_inert : Inert db (cmdPush c db k ks b b2) := by unfold cmdPush; inert
+theorem llen_inert : Inert db (cmdLLen c db k) := by unfold cmdLLen; inert
+theorem lindex_inert : Inert db (cmdLIndex c db k i) := by unfold cmdLIndex; inert
+theorem lrange_inert : Inert db (cmdLRange c db k i j) := by unfold cmdLRange; inert
+theorem lset_inert : Inert db (cmdLSet c db k i v) := by unfold cmdLSet; inert
+theorem linsert_inert : Inert db (cmdLInsert c db k b v m) := by unfold cmdLInsert; inert
+theorem lrem_inert : Inert db (cmdLRem c db k i v) := by unfold cmdLRem; inert
+theorem ltrim_inert : Inert db (cmdLTrim c db k i j) := by unfold cmdLTrim; inert
+theorem lpos_inert : Inert db (cmdLPos c db k v oi oj ok') := by unfold cmdLPos; inert
+theorem hset_inert : Inert db (cmdHSet c db k kvs b b2) := by unfold cmdHSet; inert
+theorem hget_inert : Inert db (cmdHGet c db k f) := by unfold cmdHGet; inert
+theorem hmget_inert : Inert db (cmdHMGet c db k ks) := by unfold cmdHMGet; inert
+theorem hgetall_inert : Inert db (cmdHGetAll c db k) := by unfold cmdHGetAll; inert
+theorem hkeys_inert : Inert db (cmdHKeys c db k b) := by unfold cmdHKeys; inert
+theorem hlen_inert : Inert db (cmdHLen c db k) := by unfold cmdHLen; inert
+theorem hexists_inert : Inert db (cmdHExists c db k f) := by unfold cmdHExists; inert
+theorem hstrlen_inert : Inert db (cmdHStrlen c db k f) := by unfold cmdHStrlen; inert
+theorem hdel_inert : Inert db (cmdHDel c db k ks) := by unfold cmdHDel; inert
+theorem hincrby_inert : Inert db (cmdHIncrBy c db k f i) := by unfold cmdHIncrBy; inert
+theorem hincrbyfloat_inert : Inert db (cmdHIncrByFloat c db k f v) := by unfold cmdHIncrByFloat; inert
+theorem sadd_inert : Inert db (cmdSAdd c db k ks) := by unfold cmdSAdd; inert
+theorem srem_inert : Inert db (cmdSRem c db k ks) := by unfold cmdSRem; inert
+theorem scard_inert : Inert db (cmdSCard c db k) := by unfold cmdSCard; inert
+theorem sismember_inert : Inert db (cmdSIsMember c db k m) := by unfold cmdSIsMember; inert
+theorem smismember_inert : Inert db (cmdSMIsMember c db k ks) := by unfold cmdSMIsMember; inert
+theorem smembers_inert : Inert db (cmdSMembers c db k) := by unfold cmdSMembers; inert
+theorem smove_inert : Inert db (cmdSMove c db k k2 m) := by unfold cmdSMove; inert
+theorem setalgebra_inert (op : SetOp) : Inert db (cmdSetAlgebra c db op ks) := by unfold cmdSetAlgebra; inert
+theorem setalgebrastore_inert (op : SetOp) : Inert db (cmdSetAlgebraStore c db op k ks) := by unfold cmdSetAlgebraStore; inert
+theorem sintercard_inert : Inert db (cmdSInterCard c db i ks j) := by unfold cmdSInterCard; inert
+theorem exists_inert : Inert db (cmdExists c db ks) := by unfold cmdExists; inert
+theorem type_inert : Inert db (cmdType c db k) := by unfold cmdType; inert
+theorem rename_inert : Inert db (cmdRename c db k k2 b) := by unfold cmdRename; inert
+theorem copy_inert : Inert db (cmdCopy c db k k2 b) := by unfold cmdCopy; inert
+theorem expireat_inert (opt : ExpireOpt) : Inert db (cmdExpireAt c db k i opt) := by unfold cmdExpireAt; inert
+theorem persist_inert : Inert db (cmdPersist c db k) := by unfold cmdPersist; inert
+theorem ttl_inert (kind : TtlKind) : Inert db (cmdTtl c db k kind) := by unfold cmdTtl; inert
+theorem getbit_inert : Inert db (cmdGetBit c db k i) := by unfold cmdGetBit; inert
+theorem bitpos_inert (st : Option Int) (en : Option (Int × Bool)) : Inert db (cmdBitPos c db k i st en) := by unfold cmdBitPos; inert
+theorem bitop_inert : Inert db (cmdBitOp c db k k2 ks) := by unfold cmdBitOp; inert
+theorem bitfieldParsed_inert (ps : List BfParsed) : Inert db (cmdBitfieldParsed c db k ps) := by unfold cmdBitfieldParsed; inert
+
+theorem append_inert : Inert db (cmdAppend c db k v) := by unfold cmdAppend; inert
+theorem decrby_inert : Inert db (cmdDecrBy c db k i) := by
+  unfold cmdDecrBy
+  split
+  · exact ⟨fun _ => rfl⟩
+  · exact incrby_inert c db k _
+theorem pop_inert : Inert db (cmdPop c db k oi b) := by
+  have go : ∀ n multi, Inert db (cmdPop.go c db k b n multi) := by
+    intro n multi
+    unfold cmdPop.go
+    inert
+  unfold cmdPop
+  split
+  · split
+    · exact ⟨fun _ => rfl⟩
+    · exact go _ _
+  · exact go _ _
+theorem del_inert : Inert db (cmdDel c db ks b) := by
+  unfold cmdDel
+  refine ⟨fun h => ?_⟩
+  simp [R.ok, vInt, Value.isError] at h
+theorem bfStep_no_error (buf : Bytes) (p : BfParsed) : (bfStep c buf p).2.2.isError = false := by
+  unfold bfStep
+  extract_lets a u n nv oob m neg resolved
+  split
+  · rfl
+  · clear_value resolved
+    cases resolved <;> rfl
+theorem bitfield_inert (ops : List BfOp) : Inert db (cmdBitfield c db k ops) := by
+  unfold cmdBitfield
+  split
+  · exact ⟨fun _ => rfl⟩
+  · exact bitfieldParsed_inert c db k _
+theorem bitcount_inert (r : Option (Int × Int × Bool)) : Inert db (cmdBitCount c db k r) := by
+  unfold cmdBitCount
+  split
+  · exact ⟨fun _ => rfl⟩
+  · split_ifs <;> first
+      | exact ⟨fun _ => rfl⟩
+      | (extract_lets; split_ifs <;> exact ⟨fun _ => rfl⟩)
+  · exact ⟨fun _ => rfl⟩
+theorem lmove_inert : Inert db (cmdLMove c db k k2 b b2) := by unfold cmdLMove; inert
+theorem lmpop_inert : Inert db (cmdLMPop c db ks b n) := by
+  have go : ∀ ks, Inert db (cmdLMPop.go c db b n ks) := by
+    intro ks
+    induction ks with
+    | nil => exact ⟨fun _ => rfl⟩
+    | cons x r ih =>
+      unfold cmdLMPop.go
+      split
+      · exact ⟨fun _ => rfl⟩
+      · exact ih
+      · split
+        · exact ih
+        · refine ⟨fun h => ?_⟩; simp [R.ok, Value.isError] at h
+  unfold cmdLMPop
+  exact go ks
+theorem bpop_inert : Inert db (runCmd.go c b db ks) := by
+  induction ks with
+  | nil => exact ⟨fun _ => rfl⟩
+  | cons x r ih =>
+    unfold runCmd.go
+    split
+    · exact ⟨fun _ => rfl⟩
+    · exact ih
+    · split
+      · exact ih
+      · refine ⟨fun h => ?_⟩; simp [R.ok, Value.isError] at h
+theorem sortFinish_inert (store : Option Bytes) (out : List Value) (hint : Match) :
+    (sortFinish db store out hint).reply.isError = false := by
+  unfold sortFinish
+  split
+  · rfl
+  · split <;> rfl
+theorem sort_inert (by_ : Option Bytes) (limit : Option (Int × Int)) (gets : List Bytes) (store : Option Bytes) :
+    Inert db (cmdSort c db k by_ limit gets b b2 store) := by
+  unfold cmdSort
+  split
+  · exact ⟨fun _ => rfl⟩
+  · refine ⟨fun h => ?_⟩; rw [sortFinish_inert] at h; cases h
+  · split
+    · exact ⟨fun _ => rfl⟩
+    · refine ⟨fun h => ?_⟩; rw [sortFinish_inert] at h; cases h
+
+theorem setbit_inert : Inert db (cmdSetBit c db k i j) := by
+  unfold cmdSetBit
+  split
+  · exact ⟨fun _ => rfl⟩
+  · split
+    · exact ⟨fun _ => rfl⟩
+    · dsimp only
+      split
+      · rename_i x heq
+        refine ⟨fun h => ?_⟩
+        exfalso
+        unfold cmdBitfieldParsed at heq
+        simp only [List.foldl_cons, List.foldl_nil, List.nil_append] at heq
+        split at heq
+        all_goals first
+          | (simp only [R.ok, Value.array.injEq, List.cons.injEq, and_true] at heq
+             rw [← heq] at h
+             simp only [bfStep_no_error] at h
+             cases h)
+          | (simp [R.ok, wrongType] at heq)
+      · exact bitfieldParsed_inert c db k _
+end
+
+theorem onDb_inert (s : State) (ref : Nat) (f : Db → R) (hi : Inert (s.getDb ref) (f (s.getDb ref)))
+    (h : (onDb s ref f).reply.isError = true) : ∀ r, (onDb s ref f).st.getDb r = s.getDb r := by
+  intro r
+  unfold onDb at h ⊢
+  simp only at h ⊢
+  by_cases e : (ref == r) = true
+  · have : ref = r := by simpa using e
+    subst this
+    rw [getDb_setDb_self]
+    exact hi.inert h
+  · exact getDb_setDb_ne _ _ _ _ (by simpa using e)
+
+/-- **A command that fails changes nothing.** Whatever the command and its arguments, whatever the
+    databases hold: if the reply is an error — wrong type, syntax, range, overflow, not a number, no such
+    key, anything — every database of the server is exactly what it was: every key, value, deadline and
+    version. -/
+theorem failed_command_inert (c : Ctx) (s : State) (conn ref : Nat) (m : Bool) (cmd : Cmd)
+    (h : (runCmd c s conn ref m cmd).reply.isError = true) :
+    ∀ r, (runCmd c s conn ref m cmd).st.getDb r = s.getDb r := by
+  cases cmd
+  case copy a b rep dbOpt =>
+    simp only [runCmd] at h ⊢
+    split at h
+    · intro r; simp [*]
+    · rename_i hc; simp only [hc, ↓reduceIte] at ⊢; exact onDb_inert s ref _ (copy_inert ..) h
+  case lmpop nk ks l cnt =>
+    simp only [runCmd] at h ⊢
+    split at h
+    · intro r; simp [*]
+    · split at h
+      · intro r; simp [*]
+      · rename_i h1 h2; simp only [h1, h2, ↓reduceIte] at ⊢; exact onDb_inert s ref _ (lmpop_inert ..) h
+  case set a0 a1 a2 a3 => simp only [runCmd]; exact onDb_inert s ref _ (set_inert ..) h
+  case append a0 a1 => simp only [runCmd]; exact onDb_inert s ref _ (append_inert ..) h
+  case get a0 => simp only [runCmd]; exact onDb_inert s ref _ (get_inert ..) h
+  case getdel a0 => simp only [runCmd]; exact onDb_inert s ref _ (getdel_inert ..) h
+  case getex a0 a1 => simp only [runCmd]; exact onDb_inert s ref _ (getex_inert ..) h
+  case strlen a0 => simp only [runCmd]; exact onDb_inert s ref _ (strlen_inert ..) h
+  case getrange a0 a1 a2 => simp only [runCmd]; exact onDb_inert s ref _ (getrange_inert ..) h
+  case setrange a0 a1 a2 => simp only [runCmd]; exact onDb_inert s ref _ (setrange_inert ..) h
+  case incrby a0 a1 => simp only [runCmd]; exact onDb_inert s ref _ (incrby_inert ..) h
+  case decrby a0 a1 => simp only [runCmd]; exact onDb_inert s ref _ (decrby_inert ..) h
+  case incrbyfloat a0 a1 => simp only [runCmd]; exact onDb_inert s ref _ (incrbyfloat_inert ..) h
+  case mget a0 => simp only [runCmd]; exact onDb_inert s ref _ (mget_inert ..) h
+  case mset a0 a1 => simp only [runCmd]; exact onDb_inert s ref _ (mset_inert ..) h
+  case push a0 a1 a2 a3 => simp only [runCmd]; exact onDb_inert s ref _ (push_inert ..) h
+  case pop a0 a1 a2 => simp only [runCmd]; exact onDb_inert s ref _ (pop_inert ..) h
+  case llen a0 => simp only [runCmd]; exact onDb_inert s ref _ (llen_inert ..) h
+  case lindex a0 a1 => simp only [runCmd]; exact onDb_inert s ref _ (lindex_inert ..) h
+  case lrange a0 a1 a2 => simp only [runCmd]; exact onDb_inert s ref _ (lrange_inert ..) h
+  case lset a0 a1 a2 => simp only [runCmd]; exact onDb_inert s ref _ (lset_inert ..) h
+  case linsert a0 a1 a2 a3 => simp only [runCmd]; exact onDb_inert s ref _ (linsert_inert ..) h
+  case lrem a0 a1 a2 => simp only [runCmd]; exact onDb_inert s ref _ (lrem_inert ..) h
+  case ltrim a0 a1 a2 => simp only [runCmd]; exact onDb_inert s ref _ (ltrim_inert ..) h
+  case lpos a0 a1 a2 a3 a4 => simp only [runCmd]; exact onDb_inert s ref _ (lpos_inert ..) h
+  case lmove a0 a1 a2 a3 => simp only [runCmd]; exact onDb_inert s ref _ (lmove_inert ..) h
+  case hset a0 a1 a2 a3 => simp only [runCmd]; exact onDb_inert s ref _ (hset_inert ..) h
+  case hget a0 a1 => simp only [runCmd]; exact onDb_inert s ref _ (hget_inert ..) h
+  case hmget a0 a1 => simp only [runCmd]; exact onDb_inert s ref _ (hmget_inert ..) h
+  case hgetall a0 => simp only [runCmd]; exact onDb_inert s ref _ (hgetall_inert ..) h
+  case hkeys a0 a1 => simp only [runCmd]; exact onDb_inert s ref _ (hkeys_inert ..) h
+  case hlen a0 => simp only [runCmd]; exact onDb_inert s ref _ (hlen_inert ..) h
+  case hexists a0 a1 => simp only [runCmd]; exact onDb_inert s ref _ (hexists_inert ..) h
+  case hstrlen a0 a1 => simp only [runCmd]; exact onDb_inert s ref _ (hstrlen_inert ..) h
+  case hdel a0 a1 => simp only [runCmd]; exact onDb_inert s ref _ (hdel_inert ..) h
+  case hincrby a0 a1 a2 => simp only [runCmd]; exact onDb_inert s ref _ (hincrby_inert ..) h
+  case hincrbyfloat a0 a1 a2 => simp only [runCmd]; exact onDb_inert s ref _ (hincrbyfloat_inert ..) h
+  case sadd a0 a1 => simp only [runCmd]; exact onDb_inert s ref _ (sadd_inert ..) h
+  case srem a0 a1 => simp only [runCmd]; exact onDb_inert s ref _ (srem_inert ..) h
+  case scard a0 => simp only [runCmd]; exact onDb_inert s ref _ (scard_inert ..) h
+  case sismember a0 a1 => simp only [runCmd]; exact onDb_inert s ref _ (sismember_inert ..) h
+  case smismember a0 a1 => simp only [runCmd]; exact onDb_inert s ref _ (smismember_inert ..) h
+  case smembers a0 => simp only [runCmd]; exact onDb_inert s ref _ (smembers_inert ..) h
+  case smove a0 a1 a2 => simp only [runCmd]; exact onDb_inert s ref _ (smove_inert ..) h
+  case salg a0 a1 => simp only [runCmd]; exact onDb_inert s ref _ (setalgebra_inert ..) h
+  case salgStore a0 a1 a2 => simp only [runCmd]; exact onDb_inert s ref _ (setalgebrastore_inert ..) h
+  case sintercard a0 a1 a2 => simp only [runCmd]; exact onDb_inert s ref _ (sintercard_inert ..) h
+  case del a0 a1 => simp only [runCmd]; exact onDb_inert s ref _ (del_inert ..) h
+  case exists_ a0 => simp only [runCmd]; exact onDb_inert s ref _ (exists_inert ..) h
+  case touch a0 => simp only [runCmd]; exact onDb_inert s ref _ (exists_inert ..) h
+  case type_ a0 => simp only [runCmd]; exact onDb_inert s ref _ (type_inert ..) h
+  case rename a0 a1 a2 => simp only [runCmd]; exact onDb_inert s ref _ (rename_inert ..) h
+  case sort a0 a1 a2 a3 a4 a5 a6 => simp only [runCmd]; exact onDb_inert s ref _ (sort_inert ..) h
+  case persist a0 => simp only [runCmd]; exact onDb_inert s ref _ (persist_inert ..) h
+  case ttl a0 a1 => simp only [runCmd]; exact onDb_inert s ref _ (ttl_inert ..) h
+  case getbit a0 a1 => simp only [runCmd]; exact onDb_inert s ref _ (getbit_inert ..) h
+  case setbit a0 a1 a2 => simp only [runCmd]; exact onDb_inert s ref _ (setbit_inert ..) h
+  case bitcount a0 a1 => simp only [runCmd]; exact onDb_inert s ref _ (bitcount_inert ..) h
+  case bitpos a0 a1 a2 a3 => simp only [runCmd]; exact onDb_inert s ref _ (bitpos_inert ..) h
+  case bitop a0 a1 a2 => simp only [runCmd]; exact onDb_inert s ref _ (bitop_inert ..) h
+  case bitfield a0 a1 a2 => simp only [runCmd]; exact onDb_inert s ref _ (bitfield_inert ..) h
+  case expire k n u a o => simp only [runCmd]; exact onDb_inert s ref _ (expireat_inert ..) h
+  case bpop ks l => simp only [runCmd]; exact onDb_inert s ref _ (bpop_inert ..) h
+  case flushdb => by_cases hf : c.q.flushDetaches = true <;> simp [runCmd, hf, Value.isError, vOK] at h
+  case flushall => by_cases hf : c.q.flushDetaches = true <;> simp [runCmd, hf, Value.isError, vOK] at h
+  case select i =>
+    simp only [runCmd]
+    intro r
+    split
+    · rfl
+    · simp only [getDb_setSession]; exact getDb_tableRef s _ r
+  case watch ks =>
+    simp only [runCmd]
+    intro r
+    split
+    · rfl
+    · exact getDb_setSession _ _ _ r
+  case unwatch => intro r; exact getDb_setSession _ _ _ r
+  case hello v =>
+    simp only [runCmd]
+    intro r
+    split
+    · split
+      · rfl
+      · exact getDb_setSession _ _ _ r
+    · rfl
+  case clientSetname nm =>
+    simp only [runCmd]
+    intro r
+    split
+    · rfl
+    · exact getDb_setSession _ _ _ r
+  case ping o => cases o <;> (intro r; rfl)
+  case dbsize => simp only [runCmd]; intro r; split <;> rfl
+  all_goals
+    simp only [runCmd] at h ⊢
+    first
+      | exact onDb_inert s ref _ (by inert) h
+      | (intro r; first | rfl | trivial)
+
 end RedisEmu
